@@ -534,13 +534,13 @@ fn odd_case(idx: u64, sink: &mut Sink<'_>) {
 /// Pending totals (terminators included): one below, at and one above every power of two from 4 KiB
 /// to 1 MiB (quick: to 256 KiB), and a few sizes in between.
 fn large_totals(tier: Tier) -> Vec<usize> {
-    let mut v = Vec::new();
+    // (the quick list is a prefix of the thorough one, so that a case number means the same in both)
+    let mut v = vec![5000, 70_000, 100_000, 200_001];
     for k in 12..=tier.pick(18, 20) {
         for d in [-1i64, 0, 1] {
             v.push(((1i64 << k) + d) as usize);
         }
     }
-    v.extend([5000, 70_000, 100_000, 200_001]);
     v
 }
 const LARGE_FORMS: [&str; 5] = ["one send_error", "one enqueue_call + flush", "many small enqueue_call + flush", "one small enqueue_call + one large send_reply", "one large enqueue_call + many small ones + flush"];
